@@ -48,6 +48,15 @@ META = {
             "section name is dotted, or [DEFAULT] is non-empty",
 }
 
+
+def report(ctx: Ctx, what: str, replay_obj, key=None) -> None:
+    """ctx.violation, but at most 50 replay files per run (the rest is counted in the evidence)."""
+    if key is not None or len(ctx.violations) < 50:
+        ctx.violation(what, replay_obj, key=key)
+    else:
+        ctx.cov["violations_not_written"] = ctx.cov.get("violations_not_written", 0) + 1
+
+
 KEY = "dollar-not-reescaped"
 MISSING = [-1]
 ERR_D = [{"name": MISSING, "opts": []}]
@@ -164,7 +173,7 @@ def judge(ctx: Ctx, rec: dict, dev: int, source: str, reported: set) -> bool:
     if not rec["ok"] or any(v is None for o in view.values() for v in o.values()):
         return True
     if as_map(rec["dict"]) == "ERR":
-        ctx.violation(f"get_config_dict() raises {rec['errors'].get('dict')} on a configuration whose values are all readable "
+        report(ctx, f"get_config_dict() raises {rec['errors'].get('dict')} on a configuration whose values are all readable "
                       f"[INI: {render_ini(rec['cfg'])!r}]", {"source": source, "cfg": rec["cfg"], "model_deviation": 0})
         return False
     ok = True
@@ -176,7 +185,7 @@ def judge(ctx: Ctx, rec: dict, dev: int, source: str, reported: set) -> bool:
             f"   [INI: {render_ini(rec['cfg'])!r}; dict: {as_map(rec['dict'])}]"
         key = KEY if dev else None
         if key is None or key not in reported:
-            ctx.violation(what, {"source": source, "cfg": rec["cfg"], "model_deviation": dev}, key=key)
+            report(ctx, what, {"source": source, "cfg": rec["cfg"], "model_deviation": dev}, key=key)
         if key:
             reported.add(key)
     d0, d1 = as_map(rec["dict"]), as_map(rec["dictr"])
@@ -189,7 +198,7 @@ def judge(ctx: Ctx, rec: dict, dev: int, source: str, reported: set) -> bool:
                     bad = True
     if bad:
         ok = False
-        ctx.violation(f"replace_config_dir must rewrite exactly the values containing {LOCAL_DIR!r} (every occurrence, nothing else): {d0} -> {d1}",
+        report(ctx, f"replace_config_dir must rewrite exactly the values containing {LOCAL_DIR!r} (every occurrence, nothing else): {d0} -> {d1}",
                       {"source": source, "cfg": rec["cfg"], "what": "replace"})
     return ok
 
@@ -391,7 +400,7 @@ def run(ctx: Ctx) -> None:
     except Exception as e:
         ctx.note("subrun_path_with_literal_dollar", f"{type(e).__name__}: {e}")
         if KEY not in reported:
-            ctx.violation(f"a config with 'price = cost$$5' cannot be forwarded to a sub-scheduler: {type(e).__name__}: {e}",
+            report(ctx, f"a config with 'price = cost$$5' cannot be forwarded to a sub-scheduler: {type(e).__name__}: {e}",
                           {"source": "subrun-path", "cfg": {"defaults": [], "sections": [
                               {"name": T("executors.batch"), "opts": [[T("price"), T("cost$$5")]]}]},
                            "model_deviation": 1}, key=KEY)
